@@ -96,7 +96,7 @@ func unitCmd(args []string) {
 				continue
 			}
 			ok := (o.Status == "unsat") != o.Vacuity
-			if o.Vacuity && o.Status == "sat" {
+			if o.Vacuity && o.Status != "unsat" {
 				ok = true
 			}
 			if !ok {
